@@ -236,3 +236,14 @@ def run(facts, rep, ctx):
         rep.bad(rule3, key, '%s:%s' % (bf.file, bf.line), 'bwtfind neither counts with less[] nor sorts')
     else:
         rep.ok(rule3, key, '%s:%s' % (bf.file, bf.line), 'counting sort over less[] (stable)' if uses_less else 'stable sort')
+
+
+_run_before_round2 = run
+
+
+def run(facts, rep, ctx):
+    """rules added after the second round of independent seeding (rules/round2.py)"""
+    _run_before_round2(facts, rep, ctx)
+    from . import round2
+    round2.ps1(facts, rep)
+
